@@ -17,3 +17,11 @@ func VerifSelectAuthnPolicies(ps *PushContext, configNamespace string, services 
 	sc.selectAuthnPolicies(ps, configNamespace)
 	return sc.AuthnPolicies
 }
+
+// VerifSelectAuthnPoliciesScope is VerifSelectAuthnPolicies returning the scope itself, so that the config
+// dependencies selectAuthnPolicies registers (DependsOnConfig) can be read.
+func VerifSelectAuthnPoliciesScope(ps *PushContext, configNamespace string, services []*Service) *SidecarScope {
+	sc := &SidecarScope{services: services, Namespace: configNamespace}
+	sc.selectAuthnPolicies(ps, configNamespace)
+	return sc
+}
